@@ -4,6 +4,7 @@ import Deb822Verif.Model.DebAccess
 import Deb822Verif.Model.DebLossy
 import Deb822Verif.Model.DebEdit
 import Deb822Verif.Model.DebWrap
+import Deb822Verif.Model.CtlWrap
 import Deb822Verif.Spec.DocGrammar
 import Deb822Verif.Spec.DocSDec
 import Deb822Verif.Spec.LossyCanon
@@ -245,6 +246,16 @@ def wrapOnce (level : String) (cfg : WrapCfg) (ecmp pcmp fmt : String) (root : D
     else if ecmp == "v" then some (fun a b => strLe (entryValue a) (entryValue b)) else none
   let ple : Option (DNode → DNode → Bool) :=
     if pcmp == "p" then some (fun a b => optLe (Deb.get a "Package".toList) (Deb.get b "Package".toList)) else none
+  if fmt == "c" then
+    -- the control-file wrappers (Model/CtlWrap): Control at document level, Source / Binary on one
+    -- paragraph; comparators fixed by the wrapper
+    match level with
+    | "d" => Ctl.controlWrap cfg root
+    | "p" => match paragraphs root with
+      | p :: _ => (Ctl.paraWrap cfg p).map fun p' => Node.node .ROOT [p']
+      | [] => some (Node.node .ROOT [])
+    | _ => none
+  else
   match level with
   | "d" => if fmt == "x" then deb822Wrap ple none root else deb822Wrap ple (some (paragraphWrap cfg ele f)) root
   | "p" => match paragraphs root with
@@ -268,6 +279,7 @@ def handle (op : String) (args : List String) : Option String :=
     let s ← decStr t
     let (c, ecmp, pcmp, fmt) ← decCfg cfg
     let root := (parse s).tree
+    if fmt == "c" && Ctl.hasBigNumber root then pure "BIGNUM\t!F-C07-8" else
     pure (match wrapOnce level c ecmp pcmp fmt root with
       | none => "PANIC"
       | some t1 => match wrapOnce level c ecmp pcmp fmt t1 with
